@@ -183,8 +183,9 @@ def search(rng, tier, mism_cases):
 LEVEL_TEXT = ("Machine-checked Coq theorems on the model of TimeScale.nice for ALL domains (years 2..9997) and counts: the "
               "lower end only moves down and the upper end only moves up (hence the orientation is kept), each new end is a "
               "boundary of the unit chosen by the tick-method table whose unit number is divisible by the skip, and the "
-              "skip loops end within skip rounds (fuel never runs out). NOT proved: the less-than-two-tick-steps bound "
-              "(checked by the property oracle on every generated case).")
+              "skip loops end within skip rounds (fuel never runs out), and each end moves outward by less than two tick steps of the "
+              "original domain's ticks (C14T_tnice_lt_two_ticks: all tick gaps lie in [g, 2g] and each move is below 2g, every "
+              "row of the method table, both orientations). Totality on years 1900-2200 is C11_tnice_total.")
 LEVEL_NOTE = ("Trusted: Coq kernel; extraction re-checked on a slice by vm_compute; the correspondence harness. Modelled, not "
               "verified: labella/scale.py, d3_time.py; doubles as exact rationals (ambiguity bands counted).")
-TECHNIQUE = "Coq proof (loop invariants on top of the C17/C16 theory) + model/implementation correspondence + property oracle for the unproved two-tick bound"
+TECHNIQUE = "Coq proof (loop invariants on top of the C17/C16 theory; per-row tick-gap bounds) + model/implementation correspondence"
